@@ -313,6 +313,15 @@ func runC06(cx *Ctx, r *Report) {
 			// the loop that updates the rules is entered only after the payment succeeded
 			_, g := tr[0].fact(true, "BankKeeper.SendCoinsFromAccountToModule(", " : err==nil")
 			ok = ok && g
+			// and the raised budget reaches the store on every successful path (an early
+			// return between the update and the write-back keeps the coins and drops the booking)
+			okP := false
+			for _, y := range evs {
+				if y.ev.Kind == "store.set" && hasPrefix(y.ev, "farm:FarmPoolRuleKey=0x02") && (followedBy(tr[0].ev, y.ev) || followedByCall(tr[0].ev, y.ev)) && (followedBy(rr[0].ev, y.ev) || followedByCall(rr[0].ev, y.ev)) {
+					okP = true
+				}
+			}
+			r.check(okP, "budget-adjust-persisted", "AdjustPool", tr[0].ev.Pos(cx), "the raised TotalReward / RemainingReward are written back under the rule prefix on every successful path", "AdjustPool can return successfully after taking the additional funding without writing the raised TotalReward / RemainingReward back (a return between the update and SetRewardRules): the top-up stays in the escrow unbooked and is never released or refunded")
 		}
 		r.check(ok, "budget-adjust", "AdjustPool", pos, "creator→escrow(additional) succeeded before TotalReward and RemainingReward are both raised by AmountOf(additional, denom)", "AdjustPool does not pair the additional funding with equal increases of TotalReward and RemainingReward")
 	}
